@@ -599,6 +599,13 @@ def main():
     except ToolError as e:
         print("TOOL-ERROR: %s" % e)
         sys.exit(2)
+    except SystemExit:
+        raise
+    except BaseException as e:      # a defect of the machinery is never reported as a violation (exit 1)
+        import traceback
+        traceback.print_exc()
+        print("TOOL-ERROR: internal error of the checker: %r" % (e,))
+        sys.exit(2)
 
 
 if __name__ == "__main__":
